@@ -115,6 +115,7 @@ def worker_main(prop_id, tier, wid, nworkers, verif_seed, budget, max_cases,
             _dump(rep, keys, ntkeys, t0, outpath, False)
             last_dump = time.time()
         try:
+            prop.current_index = index
             case = prop.gen(rng, tier)
             case['index'] = index
             case['verif_seed'] = verif_seed
